@@ -5,6 +5,7 @@ import SF.GenEq.Tactic
 set_option linter.unusedSimpArgs false
 set_option linter.unusedSectionVars false
 set_option linter.unusedVariables false
+set_option maxHeartbeats 400000
 /-! Translator tie for `Constant` (src/pure_functions/constant.rs): the view generated from the Rust text = the model's `constV c`,
 for every child view: same answers and same panics on every input.  (Table-driven: tools/mk_geneq.py.) -/
 namespace SF.GenEq.Constant
@@ -22,7 +23,7 @@ theorem upd_eq  (s : State α) (x : α)  :
     (update  s x).map (abs ) = (constV s.val).upd (abs  s) x := by
   simp only [update, wrap, mapV, binop, constV, abs]; gen_tie
 theorem upd_cfg  (s s' : State α) (x : α) : update  s x = .ok s' → s'.val = s.val := by
-  simp only [update]; gen_tie
+  simp only [update, constV]; gen_tie
 theorem last_eq  (s : State α)  : last  s = (constV s.val).last (abs  s) := by
   simp only [last, wrap, mapV, binop, constV, abs]; gen_tie
 
@@ -32,15 +33,17 @@ def sim  (c : α)  : Sim (mkView (s0  c) (update ) (last )) (constV c) where
   init_cfg := by simp [mkView, s0]
   init_abs := by rfl
   upd := fun (s : State α) x hs => by
-    have h0 := hs
-    rw [← h0]; exact upd_eq  s x 
+    have h0 : s.val = c := hs
+    have := upd_eq  s x  
+    (try rw [h0] at this); exact this
   upd_cfg := fun (s : State α) x s' hs h => by
-    have h0 := hs
+    have h0 : s.val = c := hs
     have := upd_cfg  s s' x h
     simp_all
   last := fun (s : State α) hs => by
-    have h0 := hs
-    rw [← h0]; exact last_eq  s 
+    have h0 : s.val = c := hs
+    have := last_eq  s  
+    (try rw [h0] at this); exact this
 
 /-- the Rust text of `Constant`, as translated, and the model agree on every input: same answers, same panics -/
 theorem tie  (c : α)  (xs : List α) :
